@@ -358,6 +358,7 @@ type runner struct {
 	okRes   []bool
 	failed  []bool
 	applied []appliedOp // what was actually committed / dropped, with the exact B-tree calls issued
+	c21     bool        // a passive registry write failed with the hashmap's displaced-slot error (C21's defect), no fault injected
 	snapDup bool
 	snap    string // correspondence case frozen at the first divergent reinstate (later passive states depend on file-level leftovers the model does not track)
 	tainted bool   // a reinstate already left the folders different: later reinstates inherit that
@@ -619,6 +620,16 @@ func (r *runner) runOp(i int, op histOp) {
 	}
 	wroteToPassive := committed && (payloadCount(cap.Roots)+payloadCount(cap.Added)+payloadCount(cap.Updated)+payloadCount(cap.Removed)+len(cap.Stores) > 0)
 	hit := (r.dead && wroteToPassive) || hits > 0 || (op.Fault == "sinfo" && installed && committed && len(cap.Stores) > 0)
+	if !hit && committed && failedNow && isDisplacedSlotError(cap.RegErr) {
+		// No injected fault, yet the passive-side registry write failed with the hashmap's own "item not found /
+		// different item" error: C21's open finding (findOneFileRegion(forWriting) stops at the first empty slot, so a
+		// displaced id whose earlier slot was vacated cannot be removed / is written twice).  The active side does an
+		// extra UpdateNoLocks of the removed handles before its Remove, which hides the same defect there.  Replication
+		// was switched off correctly; the history leaves the model's "registry is a map" assumption here.
+		res.Count("passive.c21_displaced_slot_error")
+		r.c21 = true
+		r.insync = false
+	}
 	if hit {
 		r.insync = false
 		if !failedNow {
@@ -626,6 +637,11 @@ func (r *runner) runOp(i int, op histOp) {
 		}
 	}
 	r.compare(i, op.Kind)
+}
+
+// isDisplacedSlotError: the message text is the only discriminator the registry map offers.
+func isDisplacedSlotError(msg string) bool {
+	return strings.Contains(msg, "can't delete a missing item") || strings.Contains(msg, "is different (source lid")
 }
 
 func bucket(n int) int {
@@ -846,7 +862,9 @@ func runHistory(res *hx.Result, h history, idx int) {
 		dup = r.snapDup
 		res.Count("case.frozen_at_divergent_reinstate")
 	}
-	if dup {
+	if r.c21 && r.snap == "" {
+		res.Count("case.skipped_c21_displaced_slot_error")
+	} else if dup {
 		res.Count("case.skipped_c21_duplicate_lid")
 	} else {
 		res.AddCase(term, h)
@@ -1002,7 +1020,7 @@ func seq(a, b int) []int {
 	return o
 }
 
-// corpus: deterministic histories run first (edge grid and one per known finding).
+// corpus: deterministic histories run first (edge grid, one per open finding, regression cases of repaired defects).
 func corpus() []history {
 	return []history{
 		{Name: "plain", HashMod: 2, Slot: 4, Ops: []histOp{
@@ -1019,19 +1037,30 @@ func corpus() []history {
 		{Name: "sinfo-fault", HashMod: 2, Slot: 4, Ops: []histOp{
 			{Kind: "create", Store: "s0", Adds: seq(0, 5)}, {Kind: "write", Store: "s0", Adds: seq(5, 9), Fault: "sinfo"},
 			{Kind: "write", Store: "s0", Adds: seq(9, 12)}}},
-		// known findings
+		// open findings (store create / drop replicate through fileIOWithReplication)
 		{Name: "kf-create-while-passive-down", HashMod: 2, Slot: 4, Ops: []histOp{
 			{Kind: "create", Store: "s0", Adds: seq(0, 4)}, {Kind: "write", Store: "s0", Adds: seq(4, 8), Fault: "dead"},
 			{Kind: "create", Store: "s1", Adds: seq(0, 3)}}},
-		{Name: "kf-reinstate-empty-drive", HashMod: 2, Slot: 4, Ops: []histOp{
-			{Kind: "create", Store: "s0", Adds: seq(0, 10)}, {Kind: "write", Store: "s0", Adds: seq(10, 14), Fault: "dead"},
-			{Kind: "reinstate", Drive: "empty"}}},
-		{Name: "kf-reinstate-stale-storeinfo", HashMod: 2, Slot: 4, Ops: []histOp{
-			{Kind: "create", Store: "s0", Adds: seq(0, 5)}, {Kind: "write", Store: "s0", Adds: seq(5, 9), Fault: "sinfo"},
-			{Kind: "reinstate", Drive: "stale"}}},
 		{Name: "kf-drop-slist-fault", HashMod: 2, Slot: 4, Ops: []histOp{
 			{Kind: "create", Store: "s0", Adds: seq(0, 4)}, {Kind: "create", Store: "s1", Adds: seq(0, 4)},
 			{Kind: "drop", Store: "s0", Fault: "slist"}}},
+		// regression cases of the repaired CopyToPassiveFolders (former findings reinstate-diverged:*): reinstate onto
+		// an empty replacement drive, onto a stale copy, with no store listed (reghashmod.txt), and twice within the
+		// store-info cache TTL; each followed by commits that add and remove nodes, and by the failover dump
+		{Name: "reg-reinstate-empty-drive", HashMod: 2, Slot: 4, Ops: []histOp{
+			{Kind: "create", Store: "s0", Adds: seq(0, 10)}, {Kind: "write", Store: "s0", Adds: seq(10, 14), Fault: "dead"},
+			{Kind: "reinstate", Drive: "empty"}, {Kind: "write", Store: "s0", Adds: seq(20, 24), Rems: seq(0, 9)}}},
+		{Name: "reg-reinstate-stale-storeinfo", HashMod: 2, Slot: 4, Ops: []histOp{
+			{Kind: "create", Store: "s0", Adds: seq(0, 5)}, {Kind: "write", Store: "s0", Adds: seq(5, 9), Fault: "sinfo"},
+			{Kind: "reinstate", Drive: "stale"}, {Kind: "write", Store: "s0", Adds: seq(9, 12), Rems: seq(0, 5)}}},
+		{Name: "reg-reinstate-empty-nostores", HashMod: 2, Slot: 4, Ops: []histOp{
+			{Kind: "create", Store: "s0", Adds: seq(0, 3)}, {Kind: "write", Store: "s0", Adds: seq(3, 6), Fault: "dead"},
+			{Kind: "drop", Store: "s0"}, {Kind: "reinstate", Drive: "empty"}, {Kind: "create", Store: "s1", Adds: seq(0, 6)}}},
+		{Name: "reg-reinstate-twice", HashMod: 2, Slot: 4, Ops: []histOp{
+			{Kind: "create", Store: "s0", Adds: seq(0, 5)}, {Kind: "write", Store: "s0", Adds: seq(5, 9), Fault: "sinfo"},
+			{Kind: "reinstate", Drive: "stale"}, {Kind: "write", Store: "s0", Adds: seq(9, 14)},
+			{Kind: "write", Store: "s0", Adds: seq(14, 18), Rems: seq(0, 4), Fault: "regwrite:0"},
+			{Kind: "reinstate", Drive: "stale"}, {Kind: "write", Store: "s0", Adds: seq(30, 34), Rems: seq(4, 9)}}},
 	}
 }
 
